@@ -241,6 +241,15 @@ def store_exact(chk, rule: str):
                   f"stores `{v}`: " + ("the caller's buffer itself (the server's segment buffer) is kept, later frames appended to it change the stored value" if v == "data" else "not bytes(data)"))
     wit = must_pass(fs.cfg, lambda n: n in stores)
     chk.check(wit is None, rule, f"{LN}:LocalNode.set_data | accepted write is stored", sd.loc(), f"{path_text(wit) if wit else ''}")
+    # the store is the last thing that happens: a write callback that raises refuses the write (the client gets an abort), so no
+    # callback may run once the value is in the store
+    for s_ in stores:
+        after = [n for n in fs.cfg.reach_from(s_, skip_exc=True) if n is not s_ and n.kind in ("stmt", "for") and (
+            (n.kind == "for" and "callback" in src(n.ast.iter).lower()) or
+            (n.kind == "stmt" and any(isinstance(c, ast.Call) and isinstance(c.func, ast.Name) and "callback" in c.func.id.lower() for c in ast.walk(n.ast))))]
+        chk.check(not after, rule, f"{LN}:LocalNode.set_data | nothing that can refuse the write runs after the store", sd.loc(s_.ast),
+                  f"`{src(after[0].ast)[:50]}` runs after the value was stored: a write callback that raises makes the server answer with an abort, but the refused "
+                  f"value stays in data_store and is served to later reads" if after else "")
     from ..facts import assigned_targets
     reb = [n for n in own_nodes(sd.node) if isinstance(n, ast.stmt) and "data" in assigned_targets(n)]
     chk.check(not reb, rule, f"{LN}:LocalNode.set_data | payload not rebound", sd.loc(), f"{[src(r) for r in reb]}")
